@@ -802,11 +802,14 @@ impl<'a, R: Rec> Engine<'a, R> {
         tok::plan_clone_panic(armed);
         let next_before = ledger::next_id();
         let result = catch_unwind(AssertUnwindSafe(|| self.world[i].slot.get().clone_rec()));
+        let fired = tok::plan_fired();
         tok::plan_reset();
         match result {
             Ok(copy) => {
-                if armed != 0 {
+                if armed != 0 && fired != 0 {
                     self.v("C16/panic-swallowed", format!("the clone of field #{} panicked but clone() returned normally", armed));
+                } else if armed != 0 {
+                    self.v("C16/field-not-cloned", format!("clone() returned after fewer than {} field clones although the record holds {} values with a Clone impl of their own", armed, points));
                 }
                 // equal fields, fresh instances
                 let skip = Self::skip_of(&model);
@@ -888,6 +891,7 @@ impl<'a, R: Rec> Engine<'a, R> {
             let source = b.slot.get();
             catch_unwind(AssertUnwindSafe(|| target.clone_from_rec(source)))
         };
+        let fired = tok::plan_fired();
         tok::plan_reset();
         let panicked = result.is_err();
         if let Err(payload) = result {
@@ -898,8 +902,10 @@ impl<'a, R: Rec> Engine<'a, R> {
             } else {
                 self.fault("clonefrom.panic");
             }
-        } else if armed != 0 {
+        } else if armed != 0 && fired != 0 {
             self.v("C16/panic-swallowed", format!("the clone of field #{} panicked but clone_from() returned normally", armed));
+        } else if armed != 0 {
+            self.v("C16/field-not-cloned", format!("clone_from() returned after fewer than {} field clones although the source holds {} values with a Clone impl of their own", armed, points));
         }
         // what the target holds now: field by field the new value, or (only after a panic) the old one
         let mut skip = Self::skip_of(&dmodel);
